@@ -5,7 +5,7 @@ C10 — witnesses.
   `fix = false` / `kw = false` are): the metadata reader before the repair (`seek false`, `read false` of
   `Sqfs/Model/MetaReader.lean`) violates the property (D2), and its `read` computes `data_used - offset` below zero
   after a failed seek (D3); the data-block cache keyed by location only (D21).
-* D33 (**the code as it is in /repo**, `sfix = false`): after `dr_stream_get_buffered_data` failed to load the
+* D33 (**the code as it was in /repo before 8447a61**, `sfix = false`; `sfix = true` is the current code): after `dr_stream_get_buffered_data` failed to load the
   fragment block, the next call on the same stream reports success and hands out bytes the stream never filled.
 
 The image: two uncompressed metadata blocks back to back,
@@ -91,7 +91,7 @@ theorem d21_history_repaired :
   decide +kernel
 
 
-/-! ### D33: a stream answers with stale bytes after a failed fragment lookup (code as it is in /repo)
+/-! ### D33: a stream answers with stale bytes after a failed fragment lookup (code as it was in /repo before 8447a61)
 
 Image: eight data bytes `01 … 08` at location 0, block size 8, empty fragment table.  The file has 11 bytes: one
 raw block and a 3-byte tail that names fragment 5.  `get` delivers the block; after `advance(8)` the next `get`
